@@ -3,13 +3,16 @@ package c09
 import (
 	"context"
 	"encoding/xml"
+	"errors"
 	"fmt"
 	"io"
 	"os"
 	"regexp"
 	"runtime/debug"
 	"runtime/pprof"
+	"strconv"
 	"strings"
+	"sync"
 	"time"
 
 	"mellium.im/xmlstream"
@@ -100,18 +103,64 @@ func newMux() *mux.ServeMux {
 	)
 }
 
-// fixture is one served session on an in-memory connection.
+// faultWriter is the connection's write side: it records what the session writes and can be
+// told to fail from the n-th Write call on (a broken connection), or from now on.
+type faultWriter struct {
+	mu     sync.Mutex
+	out    *common.SafeBuffer
+	failAt int // -1 = never
+	n      int
+}
+
+var errConnBroken = errors.New("scripted connection failure")
+
+func (w *faultWriter) Write(p []byte) (int, error) {
+	w.mu.Lock()
+	fail := w.failAt >= 0 && w.n >= w.failAt
+	w.n++
+	w.mu.Unlock()
+	if fail {
+		return 0, errConnBroken
+	}
+	return w.out.Write(p)
+}
+
+func (w *faultWriter) failNow() {
+	w.mu.Lock()
+	w.failAt = 0
+	w.mu.Unlock()
+}
+
+func (w *faultWriter) writes() int {
+	w.mu.Lock()
+	defer w.mu.Unlock()
+	return w.n
+}
+
+// fixture is one served session on an in-memory connection.  The local address is a full
+// JID (me@example.net/home), as on a bound client session.
 type fixture struct {
 	rs   *common.RawSession
+	fw   *faultWriter
 	done chan outcome
 }
 
-func newFixture(h xmpp.Handler) (*fixture, error) {
-	rs, err := common.NewRawSession(0, "jabber:client", local, remote)
+func newFixture(h xmpp.Handler) (*fixture, error) { return newFixtureFault(h, -1) }
+
+// newFixtureFault: the connection's Write fails from call failAt on (-1 = never).
+func newFixtureFault(h xmpp.Handler, failAt int) (*fixture, error) {
+	pr, pw := io.Pipe()
+	out := &common.SafeBuffer{}
+	fw := &faultWriter{out: out, failAt: failAt}
+	s, err := xmpp.NewSession(context.Background(), remote, local, struct {
+		io.Reader
+		io.Writer
+	}{pr, fw}, 0, common.ReadyNegotiator(0, "jabber:client"))
 	if err != nil {
 		return nil, err
 	}
-	fx := &fixture{rs: rs, done: make(chan outcome, 1)}
+	rs := &common.RawSession{S: s, In: pw, Out: out}
+	fx := &fixture{rs: rs, fw: fw, done: make(chan outcome, 1)}
 	go func() {
 		fx.done <- guard(func() { _ = rs.S.Serve(h) })
 	}()
@@ -139,6 +188,10 @@ func serveCase(input []byte) outcome {
 	if err != nil {
 		return outcome{panicMsg: "harness: " + err.Error()}
 	}
+	return serveOn(fx, input)
+}
+
+func serveOn(fx *fixture, input []byte) outcome {
 	fed := make(chan struct{})
 	go func() {
 		defer close(fed)
@@ -154,8 +207,68 @@ func serveCase(input []byte) outcome {
 		return o
 	case <-time.After(watchdog):
 		_ = fx.rs.In.Close()
-		return outcome{stalled: true}
+		return outcome{stalled: true, where: "Serve neither consumed the input nor returned"}
 	}
+}
+
+// servexCase: a served session under a local fault.
+//
+//	mode "w": the connection's Write fails from call k on (k counts the Write calls of the
+//	          whole session); Serve must return once the input has ended
+//	mode "c": the application calls Session.Close() after the first k stanzas were processed
+//	          (a ping is used to know they were); Close must return, the remaining stanzas are
+//	          fed, Serve must return once the input has ended
+//
+// writes reports the number of Write calls the session made (for the sweep over k).
+func servexCase(mode string, k int, stanzas []string) (o outcome, writes int) {
+	failAt := -1
+	if mode == "w" {
+		failAt = k
+	}
+	fx, err := newFixtureFault(newMux(), failAt)
+	if err != nil {
+		return outcome{panicMsg: "harness: " + err.Error()}, 0
+	}
+	defer func() { writes = fx.fw.writes() }()
+	if mode == "w" {
+		return serveOn(fx, []byte(strings.Join(stanzas, ""))), 0
+	}
+	if k > len(stanzas) {
+		k = len(stanzas)
+	}
+	if k > 0 {
+		pre := strings.Join(stanzas[:k], "") + `<iq xmlns="jabber:client" type="get" id="sync1" from="example.net"><ping xmlns="urn:xmpp:ping"/></iq>`
+		fed := make(chan error, 1)
+		go func() { fed <- fx.rs.Feed([]byte(pre)) }()
+		deadline := time.Now().Add(watchdog)
+		for !strings.Contains(string(fx.rs.Out.Bytes()), `id="sync1"`) {
+			select {
+			case so := <-fx.done:
+				// the first stanzas already ended the session
+				_ = fx.rs.In.Close()
+				return so, 0
+			default:
+			}
+			if time.Now().After(deadline) {
+				_ = fx.rs.In.Close()
+				return outcome{stalled: true, where: "Serve did not answer the synchronisation ping"}, 0
+			}
+			time.Sleep(150 * time.Microsecond)
+		}
+	}
+	closed := make(chan outcome, 1)
+	go func() { closed <- guard(func() { _ = fx.rs.S.Close() }) }()
+	select {
+	case co := <-closed:
+		if co.panicMsg != "" {
+			_ = fx.rs.In.Close()
+			return co, 0
+		}
+	case <-time.After(watchdog):
+		_ = fx.rs.In.Close()
+		return outcome{stalled: true, where: "Session.Close did not return"}, 0
+	}
+	return serveOn(fx, []byte(strings.Join(stanzas[k:], ""))), 0
 }
 
 var idRe = regexp.MustCompile(`<iq[^>]*\sid="([^"]*)"`)
@@ -430,6 +543,8 @@ type ctx struct {
 	// stalls per helper name ("" = serve): after a few, further cases of that kind are
 	// skipped so that a systematic wedge is reported in seconds, not after the timeout
 	stalls map[string]int
+	// child: non-nil in a child process (see child.go)
+	child *childOut
 }
 
 const maxStalls = 4
@@ -438,8 +553,7 @@ const maxStalls = 4
 // "ok" for every input), counts it, and turns a panic / stall into an oracle failure plus a
 // panicsite line that asks the checker whether it had flagged that site.
 func (c *ctx) record(line string, o outcome, class string) {
-	c.r.Line(line, o.obs())
-	c.r.Case(line, true, class+":"+o.obs())
+	r := rec{Lines: [][2]string{{line, o.obs()}}, Canon: line, Class: class + ":" + o.obs()}
 	switch {
 	case o.panicMsg != "":
 		fn, file, ln := panicLocation(o.stack, c.repo)
@@ -452,22 +566,30 @@ func (c *ctx) record(line string, o outcome, class string) {
 		if c.an != nil {
 			if fs, site := c.an.locate(file, ln); fs != nil {
 				pl := fmt.Sprintf("panicsite %s %d", fs.Skel.Encode(), site)
-				c.r.Line(pl, "flagged")
+				r.Lines = append(r.Lines, [2]string{pl, "flagged"})
 				lines = append(lines, c.r.Prop+" "+pl)
 			} else {
 				detail += " (outside the skeleton scope)"
 			}
 		}
-		c.r.Fail("no-panic", key, lines, detail)
+		r.Fail = &recFail{Clause: "no-panic", Key: key, Lines: lines, Detail: detail}
 	case o.stalled:
 		key := "stall:serve"
-		if f := strings.Fields(line); f[0] == "helper" {
+		f := strings.Fields(line)
+		switch f[0] {
+		case "servex":
+			key = "stall:servex:" + f[1]
+		case "helper":
 			if n, err := common.UnHex(f[1]); err == nil {
 				key = "stall:helper:" + string(n)
 			}
+		case "scen":
+			key = "stall:scen:" + f[1]
 		}
-		c.r.Fail("no-wedge", key, []string{c.r.Prop + " " + line}, "still running after "+watchdog.String()+": "+o.where)
+		r.Fail = &recFail{Clause: "no-wedge", Key: key, Lines: []string{c.r.Prop + " " + line},
+			Detail: "still running after " + watchdog.String() + ": " + o.where}
 	}
+	c.emit(r)
 }
 
 // locate finds the function whose body spans file:line and the id of a site at that line
@@ -493,7 +615,7 @@ func (an *analysis) locate(file string, line int) (*funcSkel, int) {
 }
 
 func (c *ctx) serve(input string, class string) {
-	if c.stalls[""] >= maxStalls {
+	if c.stalls[""] >= maxStalls || !c.begin("serve "+common.HexS(input)) {
 		return
 	}
 	t0 := time.Now()
@@ -507,8 +629,25 @@ func (c *ctx) serve(input string, class string) {
 	c.record("serve "+common.HexS(input), o, class)
 }
 
+func (c *ctx) servex(mode string, k int, stanzas []string, class string) int {
+	var hx []string
+	for _, st := range stanzas {
+		hx = append(hx, common.HexS(st))
+	}
+	line := fmt.Sprintf("servex %s %d %s", mode, k, common.Join(hx, ";"))
+	if c.stalls["servex"] >= 2*maxStalls || !c.begin(line) {
+		return 0
+	}
+	o, w := servexCase(mode, k, stanzas)
+	if o.stalled {
+		c.stalls["servex"]++
+	}
+	c.record(line, o, class)
+	return w
+}
+
 func (c *ctx) helper(h *helper, typ, reply, class string) {
-	if c.stalls[h.name] >= maxStalls {
+	if c.stalls[h.name] >= maxStalls || !c.begin("helper "+common.HexS(h.name)+" "+typ+" "+common.HexS(reply)) {
 		return
 	}
 	t0 := time.Now()
@@ -548,6 +687,41 @@ func (c *ctx) replay(lines []string) error {
 				return err
 			}
 			c.serve(string(b), "replay")
+		case "servex":
+			if len(f) != 5 {
+				return fmt.Errorf("bad replay line %q", l)
+			}
+			k, err := strconv.Atoi(f[3])
+			if err != nil {
+				return err
+			}
+			var stanzas []string
+			for _, h := range strings.Split(f[4], ";") {
+				b, err := common.UnHex(h)
+				if err != nil {
+					return err
+				}
+				stanzas = append(stanzas, string(b))
+			}
+			c.servex(f[2], k, stanzas, "replay")
+		case "nego":
+			if len(f) != 6 {
+				return fmt.Errorf("bad replay line %q", l)
+			}
+			var chunks []string
+			for _, h := range strings.Split(f[4], ";") {
+				b, err := common.UnHex(h)
+				if err != nil {
+					return err
+				}
+				chunks = append(chunks, string(b))
+			}
+			c.nego(negoWitness{role: f[2], mechs: f[3], chunks: chunks}, "replay")
+		case "scen":
+			if len(f) != 4 {
+				return fmt.Errorf("bad replay line %q", l)
+			}
+			c.scen(scenario{name: f[2], steps: strings.Split(f[3], ",")}, "replay")
 		case "helper":
 			if len(f) != 5 {
 				return fmt.Errorf("bad replay line %q", l)
